@@ -1063,6 +1063,44 @@ def _decides_branch(g: FuncInfo, c: ast.Call) -> bool:
     return False
 
 
+def _str_values(repo, cg, g: FuncInfo, e, depth=0) -> Optional[Set[str]]:
+    """Every string an expression in g may denote when it is built from constants only: literals, module / class constants,
+    locals bound to such, conditional expressions, and same-class / same-module helpers all of whose returns are such."""
+    if e is None or depth > 5:
+        return None
+    if isinstance(e, ast.Constant):
+        return {e.value} if isinstance(e.value, str) else None
+    if isinstance(e, ast.IfExp):
+        a, b = _str_values(repo, cg, g, e.body, depth + 1), _str_values(repo, cg, g, e.orelse, depth + 1)
+        return None if a is None or b is None else a | b
+    if isinstance(e, ast.Name):
+        bs = cg.bindings(g).get(e.id)
+        if bs:
+            out: Set[str] = set()
+            for b in bs:
+                v = _str_values(repo, cg, g, b, depth + 1) if b is not None else None
+                if v is None:
+                    return None
+                out |= v
+            return out
+        return _str_values(repo, cg, g, repo.module_assign(g.module, e.id), depth + 1)
+    if isinstance(e, ast.Attribute):
+        return _str_values(repo, cg, g, _static_value(repo, g, e), depth + 1)
+    if isinstance(e, ast.Call):
+        edge = cg._resolve_call(g, e)
+        if edge.kind in ("self", "class", "exact") and len(edge.targets) == 1:
+            h = edge.targets[0]
+            rets = [n.value for n in walk(h.node) if isinstance(n, ast.Return) and n.value is not None]
+            out = set()
+            for r_ in rets:
+                v = _str_values(repo, cg, h, r_, depth + 1)
+                if v is None:
+                    return None
+                out |= v
+            return out or None
+    return None
+
+
 def _string_pieces(fn_node) -> List[ast.AST]:
     """String-typed expressions that are accumulated into / returned as the output text."""
     out = []
@@ -1220,8 +1258,7 @@ def r2(ctx):
             if isinstance(v, ast.Constant):
                 prefix_opts = [p + str(v.value) for p in prefix_opts]
             else:
-                nm = ap(v.value)
-                consts = [b.value for b in cg.bindings(g).get(nm or "", []) if isinstance(b, ast.Constant) and isinstance(b.value, str)]
+                consts = sorted(_str_values(repo, cg, g, v.value) or [])
                 ctx.require(bool(consts), f"C11.R2: cannot enumerate the values of line prefix {norm(v.value)}")
                 prefix_opts = [p + c for p in prefix_opts for c in sorted(set(consts))]
         tail = "".join(str(v.value) if isinstance(v, ast.Constant) else "1" for v in vals[i + 3:])
@@ -1500,7 +1537,6 @@ def r2(ctx):
                 not _render(js, {}, "").startswith("\n") and not comment_re.apply(_render(js, {}, "Blk").split("\n")[0].strip()):
             hdrs.append(js)
     ctx.floor("C11.R2", "block header line shapes emitted", len(hdrs), 1)
-    tbind = cg.bindings(tf)
     for js in hdrs:
         # placeholders after the name may take any constant bound to them
         opts = [""]
@@ -1510,8 +1546,7 @@ def r2(ctx):
             elif k == 1:
                 opts = [o + "Blk" for o in opts]
             else:
-                consts_ = sorted({b.value for b in tbind.get(ap(v.value) or "", []) if isinstance(b, ast.Constant)
-                                  and isinstance(b.value, str)})
+                consts_ = sorted(_str_values(repo, cg, tf, v.value) or [])
                 ctx.require(bool(consts_), f"C11.R2: cannot enumerate values of {norm(v.value)} in the block header")
                 opts = [o + c for o in opts for c in consts_]
         for line in sorted(set(opts)):
@@ -2710,6 +2745,14 @@ def r17(ctx):
     ctx.ob("C11.R17", "_format_var: scalar floats keep the sign of a NaN", seen_f and good_f, fv.where,
            "scalar floats fall into the generic repr() branch: the x86 default NaN (00 00 c0 ff) prints as `nan` and "
            "re-encodes as 00 00 c0 7f")
+    # beautified subfields are printed by HippoPrettyPrinter (pprint -> float.__repr__): its per-object hook format()
+    # has to know the spelling as well
+    pp = repo.cls("HippoPrettyPrinter", HELPERS)
+    fm = repo.lookup_method(pp, "format")
+    ctx.ob("C11.R17", "HippoPrettyPrinter: floats inside pretty-printed subfields keep the sign of a NaN", fm is not None and sign_aware(fm),
+           ctx.w(pp.module, fm.node if fm is not None else pp.node),
+           "pprint prints container members through float.__repr__: `Data =| {'POSITION': (nan, 10.0, 20.0)}` for 00 00 c0 ff "
+           "parses back as 00 00 c0 7f")
     ctx.note("C11.R17: NaN payload bits are not carried by the text (every quiet NaN prints as nan / -nan): documented limit")
 
 
